@@ -29,6 +29,11 @@ def run(spec) -> tuple:
     import logging
     logging.disable(logging.CRITICAL)
     from vf import props
+    if 'e2' in spec:
+        # an E2 counterexample: run the kernel's replay on the real function
+        m = props.module(spec['property'])
+        ob = next(o for o in m.e2_obligations('quick') if o['name'] == spec['e2'])
+        return ob['replay'](spec.get('model') or {})
     c = props.find(spec['property'], spec['condition'])
     if spec.get('canary'):
         dict(c.canaries)[spec['canary']]()
